@@ -108,7 +108,7 @@ func orderMonitor(exp expectation, res *sim.Result) []finding {
 func init() {
 	checks["c07"] = func(id string) int {
 		r := newRun(id, "exploration")
-		r.Rule = "product {PostInbox, PostOutbox, GetInbox, GetOutbox, handler} x {Social on/off} x {Federating on/off} x auth {ok, denied, error} x block {no, yes, error} x method {GET, POST, PUT, DELETE, HEAD, PATCH, OPTIONS and the other-case tokens get, post, Post, Get} x 12 Content-Type/Accept variants (certainly ActivityPub / certainly not / unspecified) x body {valid activity of every corpus type, bare object, unknown type, non-JSON}; quick thins the product by rotating bodies, thorough runs it fully; the per-request event log is judged by an ordering trace specification; non-trivial = handled request in which the application was consulted at least once, or a rejected request; distinct by (scenario, configuration)"
+		r.Rule = "product {PostInbox, PostOutbox, GetInbox, GetOutbox, handler} x {Social on/off} x {Federating on/off} x auth {ok, denied, error} x block {no, yes, error} x method {GET, POST, PUT, DELETE, HEAD, PATCH, OPTIONS and the other-case tokens get, post, Post, Get} x 12 Content-Type/Accept variants (certainly ActivityPub / certainly not / unspecified) x body {valid activity of every corpus type, bare object, unknown type, non-JSON}; quick thins the product by rotating bodies, thorough runs it fully; the per-request event log is judged by an ordering trace specification; header values that contain an ActivityStreams media type without being one, and quoted strings with escaped quotes and backslashes; non-trivial = handled request in which the application was consulted at least once, or a rejected request; distinct by (scenario, configuration)"
 		r.Assumptions = []string{"forbidden-before-checks class = Database.*, Transport.*, activity callbacks, default callbacks, FilterForwarding (the statement's list); PostInbox/OutboxRequestBodyHook, NewTransport, *Callbacks retrieval and GetInbox/GetOutbox page supply are not judged", "header variants outside the documented media types are judged by consistency only"}
 		if *replay != "" {
 			fmt.Println("C07 replay: re-running the recorded scenario")
